@@ -23,6 +23,8 @@ M = [
   "async_manual_reset_event::set() completes only the first waiter (second racing join never completes)"),
  ("v0_admit_after_close", V0, "      if (is_stopping(opState)) {\n        return false;\n      }", "      if (is_stopping(opState) && op_count(opState) == 0) {\n        return false;\n      }", "violation",
   "v0 try_record_start keeps admitting after the close while other work is outstanding"),
+ ("proposed_fix_end_scope", V2, "    if (use_count(oldState) == 0) {\n      // there are no outstanding operations to wait for\n      evt_.set();", "    if (!scope_ended(oldState) && use_count(oldState) == 0) {\n      // there are no outstanding operations to wait for\n      evt_.set();", "clean",
+  "the proposed repair of the known finding in v2::async_scope::end_scope (v2 + v1 scopes; v0 keeps the finding): no violation, v2/v1 eager units survive"),
  ("benign_comment", V2, "    auto oldState = scope->opState_.fetch_sub(2u, std::memory_order_acq_rel);", "    // drop one reference\n    auto oldState = scope->opState_.fetch_sub(2u, std::memory_order_acq_rel);", "clean",
   "comment added"),
  ("benign_hook_removed", V2, "    UNIFEX_VERIF_YIELD(\"scope.rc_fsub\");\n", "", "clean",
